@@ -276,6 +276,27 @@ fn record(cell: &Cell, rep: &mut Report) {
             }
         }
     }
+    // the same lookup cell with every planted copy holding the empty value (0 bytes is a value like any other)
+    let w0 = if cell.has_writer() { 1 } else { 0 };
+    if matches!(cell.op, MOp::Get | MOp::Touch | MOp::Ensure | MOp::Gou(_)) && cell.contents.iter().skip(w0).any(|&c| c != 0) && cell.checker == 0 && cell.pop == 0 {
+        PLANTED_SIZE.with(|s| s.set(world::Size::Empty));
+        let r2 = run_cell(cell);
+        let found = check(&r2);
+        PLANTED_SIZE.with(|s| s.set(world::Size::Five));
+        rep.evaluations += 1;
+        rep.states += 1;
+        rep.traces += 1;
+        rep.transitions += r2.trace.len() as u64;
+        rep.count("empty_value_cells", 1);
+        let mut seen = std::collections::BTreeSet::new();
+        for (sig, msg) in found {
+            if seen.insert(sig.clone()) {
+                let mut case = cell.to_json();
+                case["planted_empty"] = serde_json::json!(true);
+                rep.violation(format!("stack:{}", sig), format!("{} [the planted copies are empty files]: {}", cell.to_json(), msg), case);
+            }
+        }
+    }
     // the same cell with the handle built before any of its directories existed
     if matches!(cell.op, MOp::Get | MOp::Touch | MOp::Ensure | MOp::Gou(_)) && cell.contents.iter().any(|&c| c != 0) && cell.checker == 0 {
         LATE_DIRS.with(|l| l.set(true));
@@ -620,7 +641,7 @@ pub fn run(_tier: Tier, shard: Shard, rep: &mut Report) {
     rep.rule = "full matrix: write side {none, plain, sharded(3)} x read-only list {[], [p], [s], [p,p], [p,s], [s,p], [s,s]} x \
         per-level content {nothing, A, B} (sharded levels: value in the primary or the secondary shard) x operation {get, touch, \
         set, put, set_temp_file, put_temp_file, ensure, get_or_update x {Accept, Promote, Replace}} x populate {value, NotFound, other error}, no \
-        checker, the writing cells again with the write level exactly full of recently read entries and maintenance firing; the lookup cells again with the handle built before any of its directories existed; \
+        checker, the writing cells again with the write level exactly full of recently read entries and maintenance firing; the lookup cells again with the handle built before any of its directories existed, and with every planted copy an empty file; \
         and the hit actions again with a byte-equality checker and populate {value of the first copy, other value, NotFound} (and, for every lookup cell with a later copy, the first copy's open failing with EACCES/EIO/EMFILE: the lookup must fail \
         rather than resolve further down the stack); oracle = stack-resolution reference model on result, judge arguments, populate arguments, per-level before/after \
         snapshots, trace (no level after the first hit is touched), temp-file and source residue. Plus: get_or_update with Replace racing with another writer of the same key (all \
